@@ -157,3 +157,42 @@ def assign_pairs(fi):
         elif isinstance(n, ast.AugAssign):
             out.append((n.target, n.value, n))
     return out
+
+
+def bound_arg(ctx, fi, call, pos, name=None):
+    """The argument a call passes for the callee's `pos`-th parameter (counted
+    without self), whether it is written positionally or as a keyword.  The
+    parameter name comes from the callee's definition when the call resolves to
+    one package function, else from `name`."""
+    if pos < len(call.args) and not any(
+            isinstance(a, ast.Starred) for a in call.args[:pos + 1]):
+        return call.args[pos]
+    names = set()
+    if name:
+        names.add(name)
+    try:
+        edges = ctx.cg._resolve_callee(fi, call.func, call, 'call')
+    except Exception:
+        edges = []
+    for ed in edges:
+        if ed.is_ext:
+            continue
+        g = ed.dst
+        params = list(g.params)
+        if g.cls is not None and g.parent is None and params and not any(
+                isinstance(d, ast.Name) and d.id == 'staticmethod'
+                for d in g.decorators()):
+            params = params[1:]
+        if g.name == '__init__' and params and g.cls is not None and \
+                params[0] == g.params[0]:
+            params = params[1:]
+        if pos < len(params):
+            names.add(params[pos])
+    for k in call.keywords:
+        if k.arg in names:
+            return k.value
+    return None
+
+
+def n_bound_args(call):
+    return len(call.args) + sum(1 for k in call.keywords if k.arg is not None)
